@@ -644,6 +644,9 @@ func c07apply(w *c07world, op c07op) (code int, msg string, links [][][]interfac
 			text = []byte(*op.Text)
 		}
 		h, err := sam.NewHeader(text, refs)
+		for i := range text { // the caller recycles its buffer: the header must not point into it
+			text[i] = '#'
+		}
 		if err != nil {
 			return ret(err)
 		}
@@ -742,7 +745,11 @@ func c07apply(w *c07world, op c07op) (code int, msg string, links [][][]interfac
 		func() {
 			// items created before a panic stay reachable through h
 			defer c07expose(w, h)
-			err = h.UnmarshalText([]byte(*op.Text))
+			text := []byte(*op.Text)
+			err = h.UnmarshalText(text)
+			for i := range text { // as above
+				text[i] = '#'
+			}
 		}()
 		return ret(err)
 	case "decode":
